@@ -44,6 +44,9 @@ type Options struct {
 	// these path prefixes (empty = everywhere)
 	MapOrderPkgs []string
 	Sched    int  // SchedLow, SchedHigh, SchedExplore
+	// MaxPreempt bounds the preemptive context switches per path under SchedExplore (switches
+	// when the running goroutine blocks or exits are always explored)
+	MaxPreempt int
 	Budget   int  // instruction budget per path
 	MaxConc  int  // maximum number of values enumerated by one concretisation
 	Observe  map[string]bool
